@@ -7,7 +7,7 @@
    4. Under an injective leaf/branch hash: other script, leaf version, altered node,
       wrong parity, other output key fail.
    5. Tweaked private key corresponds to the output key (abstract group);
-      TweakTaprootPrivKey overwrites the caller's key (refuted statement kept). *)
+      TweakTaprootPrivKey leaves the caller's key unchanged. *)
 From GE Require Import Model.Taproot.
 From Coq Require Import ZifyBool ZifyN ZifyNat Permutation.
 Open Scope nat_scope.
@@ -913,29 +913,19 @@ Section Tweak.
     - reflexivity.
   Qed.
 
-  (* the caller's key holds the returned (tweaked) scalar afterwards *)
-  Lemma tweak_overwrites_caller_key d root :
-    snd (tweak_priv_ec d root) = fst (tweak_priv_ec d root).
+  (* the caller's key is not touched *)
+  Lemma tweak_ec_preserves_caller_key d root : snd (tweak_priv_ec d root) = d.
   Proof. reflexivity. Qed.
 End Tweak.
 
-(* "tweaking leaves the caller's key unchanged":
-      forall pk_odd pkx d root, 0 <= d < tap_n -> snd (tweak_priv pk_odd pkx d root) = d
-   is FALSE of the code (privKeyScalar := &privKey.Key aliases the caller's scalar,
-   Negate and Add work in place).  What holds: *)
-Theorem tweak_preserves_caller_key_partial TS pkx d root :
-  (0 <= d < tap_n)%Z -> TS pkx root = 0%Z ->
-  snd (tweak_priv_with TS false pkx d root) = d.
-Proof.
-  intros Hd Ht. unfold tweak_priv_with. cbn [snd]. rewrite Ht, Z.add_0_r. apply Z.mod_small. exact Hd.
-Qed.
+(* tweaking leaves the caller's key unchanged: every tweak function, parity, key, root *)
+Theorem tweak_preserves_caller_key TS pk_odd pkx d root :
+  snd (tweak_priv_with TS pk_odd pkx d root) = d.
+Proof. reflexivity. Qed.
 
-Theorem tweak_preserves_caller_key_refuted :
-  exists pk_odd pkx d root, (0 <= d < tap_n)%Z /\ snd (tweak_priv pk_odd pkx d root) <> d.
-Proof.
-  exists false, (repeat x01 32), 1%Z, (repeat x00 32). split; [unfold tap_n; lia|].
-  vm_compute. discriminate.
-Qed.
+Corollary tweak_priv_preserves_caller_key pk_odd pkx d root :
+  snd (tweak_priv pk_odd pkx d root) = d.
+Proof. reflexivity. Qed.
 
 (* ------------------------------------------------------------------ *)
 (* 6. the hypotheses are satisfiable                                    *)
